@@ -1,7 +1,10 @@
 #!/usr/bin/env python3
 """Run the quick checks against every seeded change under /verif/seeded.
 
-usage: seeded_all.py [--only <dir-substring>] [--tier quick] [--seed N]
+usage: seeded_all.py [--only <dir-substring>] [--tier quick] [--seed N] [--jobs K]
+
+With VERIF_DIR set, the checks are run from that copy of /verif (so that /verif can be
+edited meanwhile); results are still recorded under /verif/seeded.
 
 Each change is applied to a scratch worktree of /repo HEAD (never to /repo itself),
 the check(s) of its property are run with VERIF_REPO pointing at the worktree, the
@@ -9,12 +12,13 @@ signatures of the violations they print are recorded in seeded/<dir>/meta.json
 ("detected_by"), and the worktree is reset. The worktree is removed at the end.
 Prints one line per change; exit 1 if a change is missed by every check.
 """
-import argparse, glob, json, os, re, shutil, subprocess, sys, time
+import argparse, glob, json, os, re, shutil, subprocess, sys, time, threading, queue
 
 ENV = dict(os.environ, GOPROXY="off", GOSUMDB="off", GOTOOLCHAIN="local", GOFLAGS="-mod=mod")
 WT = "/tmp/seedwt"
+VDIR = os.environ.get("VERIF_DIR", "/verif")
 # checks of other properties that are expected to notice a change as well
-ALSO = {"C13-r2-2": ["C18"], "C11-2": ["C12"], "C03-r2-2": ["C05"], "C05-r3-1": ["C03"], "C19-r4-1": ["C02"], "C13-r4-1": ["C18"], "C03-r4-2": ["C15", "C10"], "C14-r4-2": ["C15"], "C16-r4-2": ["C02"], "C04-r3-2": ["C03"], "C10-r3-1": ["C06"], "C12-r3-1": ["C11"], "C05-2": ["C06"], "C10-1": ["C06"], "C19-2": ["C02"], "C04-2": ["C10"], "C14-1": ["C15"], "C07-1": ["C01"]}
+ALSO = {"C05-r5-2": ["C03"], "C09-r5-1": ["C03"], "C14-r5-2": ["C15"], "C10-r5-1": ["C04"], "C13-r2-2": ["C18"], "C11-2": ["C12"], "C03-r2-2": ["C05"], "C05-r3-1": ["C03"], "C19-r4-1": ["C02"], "C13-r4-1": ["C18"], "C03-r4-2": ["C15", "C10"], "C14-r4-2": ["C15"], "C16-r4-2": ["C02"], "C04-r3-2": ["C03"], "C10-r3-1": ["C06"], "C12-r3-1": ["C11"], "C05-2": ["C06"], "C10-1": ["C06"], "C19-2": ["C02"], "C04-2": ["C10"], "C14-1": ["C15"], "C07-1": ["C01"]}
 
 
 def sh(cmd, cwd=None, env=None, timeout=3000):
@@ -27,56 +31,81 @@ def main():
     ap.add_argument("--only", default="")
     ap.add_argument("--tier", default="quick")
     ap.add_argument("--seed", default="1")
+    ap.add_argument("--jobs", type=int, default=1)
     a = ap.parse_args()
-    sh(f"git -C /repo worktree remove --force {WT}")
-    shutil.rmtree(WT, ignore_errors=True)
+    ap_jobs = a.jobs
     sh("git -C /repo worktree prune")
-    rc, out = sh(f"git -C /repo worktree add -q --detach {WT} HEAD")
-    if rc != 0:
-        print(out); sys.exit(2)
-    sh("go build -o bin/vcheck ./cmd/vcheck", cwd="/verif")
+    sh("go build -o bin/vcheck ./cmd/vcheck", cwd=VDIR)
     missed = []
-    try:
-        for d in sorted(glob.glob("/verif/seeded/*/")):
-            name = os.path.basename(d.rstrip("/"))
-            if a.only and a.only not in name:
-                continue
-            pid = name.split("-")[0]
-            mp0 = d + "meta.json"
-            if os.path.exists(mp0) and json.load(open(mp0)).get("neutralised_by"):
-                print(f"{name}: neutralised ({json.load(open(mp0))['neutralised_by'][:80]}...)")
-                continue
-            patch = d + "patch_rebased.diff" if os.path.exists(d + "patch_rebased.diff") else d + "patch.diff"
-            rc, out = sh(f"git apply {patch}", cwd=WT)
-            if rc != 0:
-                print(f"{name}: patch does not apply to HEAD: {out.strip()[:200]}")
+    lock = threading.Lock()
+    q = queue.Queue()
+    for d in sorted(glob.glob("/verif/seeded/*/")):
+        name = os.path.basename(d.rstrip("/"))
+        if a.only and a.only not in name:
+            continue
+        q.put((d, name))
+
+    def worker(k):
+        wt = f"{WT}-{k}"
+        sh(f"git -C /repo worktree remove --force {wt}")
+        shutil.rmtree(wt, ignore_errors=True)
+        rc, out = sh(f"git -C /repo worktree add -q --detach {wt} HEAD")
+        if rc != 0:
+            print(out)
+            return
+        try:
+            while True:
+                try:
+                    d, name = q.get_nowait()
+                except queue.Empty:
+                    return
+                one(d, name, wt, k)
+        finally:
+            sh(f"git -C /repo worktree remove --force {wt}")
+            shutil.rmtree(f"/tmp/seeded-run-{k}", ignore_errors=True)
+
+    def one(d, name, wt, k):
+        pid = name.split("-")[0]
+        mp0 = d + "meta.json"
+        if os.path.exists(mp0) and json.load(open(mp0)).get("neutralised_by"):
+            print(f"{name}: neutralised ({json.load(open(mp0))['neutralised_by'][:80]}...)", flush=True)
+            return
+        patch = d + "patch_rebased.diff" if os.path.exists(d + "patch_rebased.diff") else d + "patch.diff"
+        rc, out = sh(f"git apply {patch}", cwd=wt)
+        if rc != 0:
+            print(f"{name}: patch does not apply to HEAD: {out.strip()[:200]}", flush=True)
+            with lock:
                 missed.append(name)
-                continue
-            found = []
-            t0 = time.time()
-            for cid in [pid] + ALSO.get(name, []):
-                env = dict(ENV, VERIF_REPO=WT, VERIF_EVIDENCE_DIR="/tmp/seeded-run/evidence", VERIF_REPLAY_DIR="/tmp/seeded-run/replays", VERIF_SEED=a.seed)
-                rc, out = sh(f"bin/vcheck {cid} --tier {a.tier}", cwd="/verif", env=env)
-                sigs = re.findall(r"^\s+sig=(\S+) count=(\d+)", out, re.M)
-                nviol = len(re.findall(r"^VIOLATION ", out, re.M))
-                if nviol:
-                    found.append({"check": cid, "exit": rc, "signatures": [s for s, _ in sigs][:12]})
-                elif cid == pid and rc != 0:
-                    found.append({"check": cid, "exit": rc, "signatures": [], "note": "non-zero exit without VIOLATION line (inconclusive)"})
-            sh("git checkout -q -- . && git clean -fdq", cwd=WT)
-            mp = d + "meta.json"
-            meta = json.load(open(mp)) if os.path.exists(mp) else {}
-            meta["detected_by"] = found
-            meta["detected"] = any(f["signatures"] for f in found)
-            meta["checked_against_repo_head"] = subprocess.check_output(["git", "-C", "/repo", "rev-parse", "--short", "HEAD"]).decode().strip()
-            json.dump(meta, open(mp, "w"), indent=1)
-            ok = meta["detected"]
-            if not ok:
+            return
+        found = []
+        t0 = time.time()
+        for cid in [pid] + ALSO.get(name, []):
+            env = dict(ENV, VERIF_REPO=wt, VERIF_DIR=VDIR, VERIF_EVIDENCE_DIR=f"/tmp/seeded-run-{k}/evidence", VERIF_REPLAY_DIR=f"/tmp/seeded-run-{k}/replays", VERIF_SEED=a.seed)
+            rc, out = sh(f"bin/vcheck {cid} --tier {a.tier}", cwd=VDIR, env=env)
+            sigs = re.findall(r"^\s+sig=(\S+) count=(\d+)", out, re.M)
+            nviol = len(re.findall(r"^VIOLATION ", out, re.M))
+            if nviol:
+                found.append({"check": cid, "exit": rc, "signatures": [s for s, _ in sigs][:12]})
+            elif cid == pid and rc != 0:
+                found.append({"check": cid, "exit": rc, "signatures": [], "note": "non-zero exit without VIOLATION line (inconclusive)"})
+        sh("git checkout -q -- . && git clean -fdq", cwd=wt)
+        mp = d + "meta.json"
+        meta = json.load(open(mp)) if os.path.exists(mp) else {}
+        meta["detected_by"] = found
+        meta["detected"] = any(f["signatures"] for f in found)
+        meta["checked_against_repo_head"] = subprocess.check_output(["git", "-C", "/repo", "rev-parse", "--short", "HEAD"]).decode().strip()
+        json.dump(meta, open(mp, "w"), indent=1)
+        ok = meta["detected"]
+        if not ok:
+            with lock:
                 missed.append(name)
-            print(f"{name}: {'DETECTED' if ok else 'MISSED'} ({time.time()-t0:.0f}s) " + "; ".join(f"{f['check']}: {','.join(f['signatures'][:4])}" for f in found), flush=True)
-    finally:
-        sh(f"git -C /repo worktree remove --force {WT}")
-        shutil.rmtree("/tmp/seeded-run", ignore_errors=True)
+        print(f"{name}: {'DETECTED' if ok else 'MISSED'} ({time.time()-t0:.0f}s) " + "; ".join(f"{f['check']}: {','.join(f['signatures'][:4])}" for f in found), flush=True)
+
+    ths = [threading.Thread(target=worker, args=(k,)) for k in range(ap_jobs)]
+    for t in ths:
+        t.start()
+    for t in ths:
+        t.join()
     print("missed:", missed)
     sys.exit(1 if missed else 0)
 
